@@ -159,7 +159,7 @@ Definition ok_accessible (c : cfg) (e : rmenv) (acc : list access) (first : err 
 
 (* ------------------------------------------------------------------ row *)
 Definition c18_row (c : cfg) (e : rmenv) (acc : list access)
-  (first : err + rminfo) (second : option (err + rminfo)) (glue : bool) : list bool :=
+  (first : err + rminfo) (second : option (err + rminfo)) (glue clean : bool) : list bool :=
   let expected2 := match first with
                    | inr r => Some (rm_from_registry (as_dict r))
                    | inl _ => None end in
@@ -168,9 +168,25 @@ Definition c18_row (c : cfg) (e : rmenv) (acc : list access)
   | inl _ => [true; true; true; true; true; true; true]
   | inr r => [ ok_names e r; ok_indices r; ok_sizes c e r; ok_reserved c r;
                ok_nonempty r; (r_req_nodes r <? 0) || ok_bound r; ok_same r second ]
-  end ++ [ok_accessible c e acc first; true].
+  end ++ [ok_accessible c e acc first; clean; true].
 
 (* library behaviour taken as an input by the model: the names ru.get_hostlist
    returns for a hostlist text vs the batch system's reading of that text *)
 Definition c18_hostlist_row (expected observed : list string) : list bool :=
-  [true; true; true; true; true; true; true; true; true; eqb_list String.eqb expected observed].
+  [true; true; true; true; true; true; true; true; true; true; eqb_list String.eqb expected observed].
+
+(* several initialisations in one process: every step is judged on its own
+   configuration and environment-as-given; a clause holds for the sequence
+   iff it holds for every step *)
+Fixpoint and_row (a b : list bool) : list bool :=
+  match a, b with
+  | x :: a', y :: b' => (x && y) :: and_row a' b'
+  | _, _ => []
+  end.
+
+Fixpoint and_rows (rows : list (list bool)) : list bool :=
+  match rows with
+  | [] => []
+  | [r] => r
+  | r :: t => and_row r (and_rows t)
+  end.
